@@ -79,6 +79,66 @@ theorem laneRun_sound (prog : Prog) (env : Env) (p : Nat) (hp : p < 64) (out : L
       simpa [run, List.foldl_cons] using ih (step env (d, e)) h
     · simp at h
 
+/-! ### truth-table evaluation -/
+theorem nat_sound (w : Nat) (env : List Nat) (n : Nat) (hn : n < w) (e : Ex) (x : Nat) (h : e.nat w env = some x) :
+    e.lane (fun i => (env.getD i 0).testBit n) = some (x.testBit n) := by
+  induction e generalizing x with
+  | reg i => simp only [Ex.nat, Option.some.injEq] at h; subst h; simp only [Ex.lane]
+  | const c => simp [Ex.nat] at h
+  | xor a c iha ihc =>
+    simp only [Ex.nat] at h
+    split at h <;> simp at h
+    rename_i u v hu hv
+    subst h
+    simp only [Ex.lane, iha u hu, ihc v hv, Nat.testBit_xor]
+  | and a c iha ihc =>
+    simp only [Ex.nat] at h
+    split at h <;> simp at h
+    rename_i u v hu hv
+    subst h
+    simp only [Ex.lane, iha u hu, ihc v hv, Nat.testBit_and]
+  | or a c iha ihc =>
+    simp only [Ex.nat] at h
+    split at h <;> simp at h
+    rename_i u v hu hv
+    subst h
+    simp only [Ex.lane, iha u hu, ihc v hv, Nat.testBit_or]
+  | not a iha =>
+    simp only [Ex.nat] at h
+    split at h <;> simp at h
+    rename_i u hu
+    subst h
+    simp only [Ex.lane, iha u hu, Nat.testBit_xor, Nat.testBit_two_pow_sub_one, hn, decide_true]
+    cases u.testBit n <;> rfl
+  | shl a n _ => simp [Ex.nat] at h
+  | shr a n _ => simp [Ex.nat] at h
+  | sub a c _ _ => simp [Ex.nat] at h
+
+theorem natRow_getD (env : List Nat) (n i : Nat) :
+    (env.map (·.testBit n)).getD i false = (env.getD i 0).testBit n := by
+  by_cases h : i < env.length
+  · simp [List.getD_eq_getElem?_getD, h]
+  · simp [List.getD_eq_getElem?_getD, h]
+
+/-- truth-table evaluation with `w` lanes packed in a Nat agrees, on each lane n < w, with `laneRun` -/
+theorem natRun_sound (w : Nat) (prog : Prog) (env out : List Nat) (n : Nat) (hn : n < w)
+    (h : natRun w prog env = some out) :
+    laneRun prog (env.map (·.testBit n)) = some (out.map (·.testBit n)) := by
+  induction prog generalizing env with
+  | nil => simp [natRun] at h; simp [laneRun, h]
+  | cons s rest ih =>
+    obtain ⟨d, e⟩ := s
+    simp only [natRun] at h
+    split at h
+    · rename_i x hx
+      have hl := nat_sound w env n hn e x hx
+      have hfun : (fun i => (env.map (·.testBit n)).getD i false) = fun i => (env.getD i 0).testBit n := by
+        funext i; exact natRow_getD env n i
+      simp only [laneRun, hfun, hl]
+      have := ih (env.set d x) h
+      simpa [List.map_set] using this
+    · simp at h
+
 /-! ### affine forms -/
 theorem par_zero (val : Nat → Bool) (n : Nat) : par val 0 n = false := by
   induction n with
